@@ -24,6 +24,7 @@ func main() {
 	explain := flag.String("explain", "", "violations file to explain (re-runs the rules and prints details)")
 	dump := flag.String("dump", "", "debug: dump paths of pkg:recv:func")
 	dumpDepth := flag.Int("dumpdepth", 3, "debug: inline depth for -dump")
+	dumpPure := flag.Bool("dumppure", false, "debug: collapse pure diamonds")
 	noEvidence := flag.Bool("no-evidence", false, "do not write evidence (used for mutant runs)")
 	list := flag.Bool("list", false, "print every obligation")
 	flag.Parse()
@@ -42,7 +43,7 @@ func main() {
 			fmt.Println("load:", err)
 			os.Exit(2)
 		}
-		dumpPaths(p, *dump, *dumpDepth)
+		dumpPaths(p, *dump, *dumpDepth, *dumpPure)
 		return
 	}
 	if *prop == "" {
@@ -124,7 +125,7 @@ type controlResult struct {
 var controlRegistry = map[string]func(p *Program) []controlResult{}
 var thoroughRegistry = map[string]func(c *Ctx, extra map[string]any){}
 
-func dumpPaths(p *Program, spec string, depth int) {
+func dumpPaths(p *Program, spec string, depth int, pure bool) {
 	parts := strings.Split(spec, ":")
 	if len(parts) != 3 {
 		fmt.Println("spec = pkgsuffix:recv:func")
@@ -148,7 +149,7 @@ func dumpPaths(p *Program, spec string, depth int) {
 		fmt.Println("not found")
 		return
 	}
-	paths, err := Enumerate(fn, SymConfig{Prog: p, MaxDepth: depth, Collapse: true})
+	paths, err := Enumerate(fn, SymConfig{Prog: p, MaxDepth: depth, Collapse: true, CollapsePure: pure})
 	fmt.Printf("%s: %d paths err=%v\n", fn, len(paths), err)
 	var ss []string
 	for _, pa := range paths {
